@@ -206,6 +206,9 @@ def record_history(spec):
     phases = spec.get("phases") or [0.0]
     ph0 = math.pi / 4 if kind == "QPSK" else phases[0]
     Mv = getattr(np, spec["mtype"])(M) if spec.get("mtype") else M      # the cardinality as a numpy integer scalar
+    if spec.get("mfloat") is not None:
+        Mv = spec["mfloat"]                                            # a non-integer cardinality: must be rejected
+        trace["frac"] = True
     out, obj = outcome(lambda: make(kind, Mv, phases[0]))
     if out != "ok":
         trace["events"].append({"op": "construct", "out": out, "tab": [], "tabok": False, "scale": [0, 1], "scaleok": False, "kok": False})
@@ -412,7 +415,7 @@ def record_history(spec):
 
 # ------------------------------------------------------------------ TLC: trace validation
 def _strip(trace):
-    return {"kind": trace["kind"], "m": trace["m"], "d": trace["d"],
+    return {"kind": trace["kind"], "m": trace["m"], "d": trace["d"], "frac": bool(trace.get("frac", False)),
             "events": [{k: v for k, v in e.items() if k not in ("shape", "layout")} for e in trace["events"]]}
 
 
